@@ -40,6 +40,10 @@ def lattice_configs(rng, shape):
         out.append(L('PadIfNeeded', min_height=None, min_width=None, min_depth=None,
                      pad_height_divisor=rng.randint(1, 5), pad_width_divisor=rng.randint(1, 5),
                      pad_depth_divisor=rng.randint(1, 5), position=rng.choice(POSITIONS), value=0, mask_value=0))
+    # the random position, always present, with room to move on every axis: one set of offsets per call, shared by
+    # every target
+    out.append(L('PadIfNeeded', min_height=H + rng.randint(3, 6), min_width=W + rng.randint(3, 6), min_depth=D + rng.randint(3, 6),
+                 position='random', value=0, mask_value=0))
     out.append(L('CropAndPad', keep_size=False, pad_cval=0, pad_cval_mask=0, **crop_and_pad_amounts(rng)))
     return out
 
